@@ -26,3 +26,5 @@ def run(ctx: Ctx) -> None:
     ctx.do(D.rule_dom_valid)
     ctx.do(D.rule_rank_space)
     ctx.do(C.rule_cfg_fwd)
+    from kfv.rules import dist_rules as _DR
+    ctx.do(_DR.rule_contig)
